@@ -373,15 +373,32 @@ def prove(assumptions, goal, timeout_s=10, opts=None, rounds=2):
     except Exception:  # pragma: no cover  (the normaliser is an accelerator; SMT decides otherwise)
         if (opts or {}).get("ring_only"):
             return Verdict(UNDECIDED, "ring-normaliser", (time.time() - t0) * 1000, reason="ring normaliser failed")
+    # a conjunction: conjuncts that are ring identities are discharged by the normaliser, only the rest goes to SMT
+    try:
+        if z3.is_and(goal) and not (opts or {}).get("ring_only"):
+            from . import ring
+            rest = [c for c in goal.children() if not ring.ring_proves(c, (opts or {}).get("rewrites") or ())]
+            if not rest:
+                return Verdict(PROVED, "ring-normaliser", (time.time() - t0) * 1000)
+            if len(rest) < goal.num_args():
+                goal = z3.And(*rest) if len(rest) > 1 else rest[0]
+    except Exception:  # pragma: no cover
+        pass
     if not (opts or {}).get("no_slice"):
         assumptions = slice_assumptions(list(assumptions), goal)
     base = [a for a in assumptions] + [z3.Not(goal)]
-    inst = axioms.saturate(base, rounds=(opts or {}).get("rounds", rounds), opts=opts)
+    inst = axioms.saturate(base, rounds=int((opts or {}).get("rounds", rounds)), opts=opts)
     formulas = base + inst
     res, model, backend, ms = check_formulas(formulas, timeout_s)
     if res == "unsat":
         return Verdict(PROVED, backend, ms)
     if res == "sat":
+        from . import sigma
+        if any(n in sigma.BY_DECL for n in axioms.collect_apps(formulas)):
+            # Σ-functions are axiomatised by finitely many instances only: a model of the instances need not be a model of
+            # the sums.  Not a refutation: the model is kept as a hint for the replay, the verdict is UNDECIDED.
+            return Verdict(UNDECIDED, backend, ms, model=model,
+                           reason="sat modulo the generated Σ-axiom instances only (the model may be spurious)")
         return Verdict(REFUTED, backend, ms, model=model, reason="sat")
     return Verdict(UNDECIDED, backend, ms, reason=res)
 
